@@ -61,6 +61,18 @@ def unit_kernel(name, pid):
       sp = generic.arg_spec(label)
       if sp and sp[1] and sp[1][0] == "nworld" and kh.is_array_type(t):
         shapes[label] = [nworld] + [None] * (t.ndim - 1)
+    # builder kernels may capture batch sizes as closure constants: bind those arrays' batch dimension to what the host passed
+    try:
+      cvars = {n: v for n, v in __import__("inspect").getclosurevars(k.func).nonlocals.items() if isinstance(v, int) and not isinstance(v, bool)}
+    except Exception:
+      cvars = {}
+    if launches and cvars:
+      L = launches[0]
+      for (label, t), shp in zip(kh.arg_specs(k), L.shapes):
+        sp = generic.arg_spec(label)
+        if shp is not None and sp and sp[1] and sp[1][0] == "*" and label not in shapes:
+          shapes[label] = [int(shp[0])] + [None] * (len(shp) - 1)
+      ctx.notes.append(f"closure constants {sorted(cvars)}: batch dimensions bound to the harvested launch ({L.model})")
     try:
       kt = lib.kernel_thread(k, shapes=shapes, unroll=2, alias_inout=True, cap=64, interp_kw={"float_uf": True})
     except core.Unsupported as ex:
@@ -96,7 +108,7 @@ def unit_kernel(name, pid):
     if pid == "C09":
       targets = per_world
     else:
-      targets = batched
+      targets = [a for a in batched if a.kind == "R"]  # writes to Model fields only happen in set_const (C33)
     if not targets:
       ctx.notes.append("no per-world / batched accesses")
       return
